@@ -54,6 +54,7 @@ func detSigner(label string) neotest.SingleSigner {
 type env struct {
 	t       testing.TB
 	stage   string // name of the last enabled hardfork ("all" = every stable one)
+	variant string // "" or a suffix naming a chain-state variant (used in case ids only)
 	bc      *core.Blockchain
 	e       *neotest.Executor
 	val     neotest.Signer
